@@ -15,6 +15,15 @@
   EntryPoints oracle: ly_pattern_match(), lyd_value_validate(), XPath re-match() (all through
               impl/t_regex.c) and the yangre tool (run as a process) give the same answer.
 
+  TypeSet     pattern SETS over typedef chains (inherited + added patterns, invert-match at any level) as seen by the
+              validator on leaf / leaf-list / union member / list key / typedef / typedef of typedef, and the
+              conjunction of single-pattern ly_pattern_match() answers, vs Rewrite.chain_patterns + validate_patterns
+              over the XSD matcher (tie of C18_invert_match_chain).
+  YangreModes oracle: yangre -p (with -i) and yangre -f <file> (LF / CRLF / no final line end) vs the library, on
+              pattern sets and strings with blanks, tabs, CR, non-ASCII, the empty string. Tags re-yangre-file-empty-line
+              and re-yangre-file-cr-start name the two defects of the file parser fixed by 5322449 (no longer expected: a
+              recurrence is a VIOLATION carrying that tag).
+
 Deviation tags returned by Match.witness() (each is one entry of known_findings.d/regex.json; anything else that
 disagrees with the XSD reference is reported as a VIOLATION):
   re-w-underscore           \\w matches '_' (PCRE2: letters, digits, '_'; XSD: everything but P, Z, C), \\W rejects it
@@ -859,3 +868,193 @@ class EntryPoints:
                 return (None, "pattern %r string %r: ly_pattern_match / lyd_value_validate / re-match() / yangre answer %s "
                               "(at most %d failing inputs of this oracle are reported)" % (pat, s, ans, self.MAX_REPORTED))
         return None
+
+
+# ----------------------------------------------------------------------------------------------------
+# pattern SETS over typedef chains, yangre in both input modes
+# ----------------------------------------------------------------------------------------------------
+SET_PATS = ["[a-z]+", "ab.*", ".*z", ".{2,4}", "a", "b|a", "[^a]*", "(ab|c)+", "a?b?", ".", "", "[a-b]{2}", "\\^.*", ".*\\p{IsBasicLatin}",
+            "[a-z]*[0-9]?", "a.*", ".*a", "\\p{IsLatin-1Supplement}+", "[^\\p{IsBasicLatin}]*", "a{1,2}", "(a|b)*", "é.*", "[$^]+", "-?a"]
+SET_EASY = [".*", "[a-z]*", ".{0,6}", "[^A-Z]*", "(a|b|c|x|y|z)*", "[a-zé^$-]*", ".*z?", "a?.*", "XYZ", "[0-9]+", "q.*"]
+SET_STRS = ["xyz", "abc", "abz", "XYZ", "a", "z", "abcdez", "qz", "", "ab", "x1z", "b", "ba", "aa", "^a", "é", "éa", "abab", "c", "-a", "$^"]
+
+
+def r_levels(rng, pool):
+    """a typedef chain: 1..4 levels (the last one is the type statement of the data node). A level is (length, patterns):
+    nothing, patterns only (0..3, each with modifier invert-match with probability 0.35), a length statement only, or
+    both. The length statements are nested (each restricts the one before, as YANG demands); at least one pattern in the
+    whole chain."""
+    while True:
+        lo, hi = 0, rng.choice([4, 6, 9])
+        lv = []
+        for _ in range(rng.choice([1, 2, 2, 3, 3, 4])):
+            kind = rng.choice(["none", "pat", "pat", "pat", "len", "len", "both", "both"])
+            g = None
+            if kind in ("len", "both"):
+                lo2 = rng.randint(lo, hi)
+                hi2 = rng.randint(lo2, hi)
+                if hi2 - lo2 >= 2 and rng.random() < 0.2:
+                    g = "%d|%d..%d" % (lo2, lo2 + 2, hi2)
+                    lo, hi = lo2 + 2, hi2
+                else:
+                    g = "%d..%d" % (lo2, hi2) if (hi2 > lo2 or rng.random() < 0.5) else "%d" % lo2
+                    lo, hi = lo2, hi2
+            ps = []
+            if kind in ("pat", "both"):
+                ps = [(1 if rng.random() < 0.35 else 0, rng.choice(pool)) for _ in range(rng.choice([1, 1, 1, 2, 2, 3]))]
+            lv.append((g, ps))
+        if any(ps for _, ps in lv):
+            return lv
+
+
+def levels_fields(lv):
+    out = ""
+    for l in lv:
+        g, ps = l if isinstance(l, tuple) else (None, l)
+        out += "\tL" + ("\tG" + g if g else "") + "".join("\t%d\t%s" % (i, hexs(p)) for i, p in ps)
+    return out
+
+
+class TypeSet(_Regex):
+    """pattern sets: the string case of lys_compile_type_() and lys_compile_type_patterns() (inherited patterns of a typedef
+    chain + added ones, modifier invert-match on any of them, levels that restate length with or without patterns) and lyplg_type_validate_patterns() as seen by lyd_value_validate() on every kind of node that carries
+    the type (leaf, leaf-list, union member, list key, typedef of the type, typedef of that typedef), and the conjunction
+    of the single-pattern answers of ly_pattern_match() XOR the pattern's own flag and of the effective length, vs
+    Rewrite.validate_string over Rewrite.chain_type with the XSD matcher (tie of C18_typeset_validate)"""
+    name = "typeset"
+    sanitize = False
+
+    def gen(self, rng, tier, scale=1.0):
+        L = []
+        fixed = [[[(0, "[a-z]+")], [(1, "ab.*")]],                                   # seeded C18-5: inverted added to inherited
+                 [[(0, "[a-z]+"), (0, ".*z")], [(0, ".{2,4}"), (1, "ab.*")]],
+                 [[(0, "[a-z]+"), (1, "ab.*")]],
+                 [[(1, "ab.*")], [(0, "[a-z]+")]],
+                 [[(1, "a")], [], [(0, "b|a")]],
+                 [[(0, "[a-z]+")], [(1, "ab.*")], [(1, ".*z")], [(0, ".{2,4}")]],
+                 [[(0, "[a-z]+")], []],
+                 [[], [(1, "[a-z]+")]],
+                 [[(1, "a"), (1, "b")], [(1, "c")]],
+                 [[(0, "a"), (0, "a")], [(1, "a")]],
+                 # seeded C18-7: a level with a length statement and no pattern must keep the inherited patterns
+                 [(None, [(0, "[a-z]+")]), ("1..4", [])],
+                 [(None, [(1, "ab.*")]), ("1..4", [])],
+                 [(None, [(0, "[a-z]+")]), ("1..4", []), (None, [(1, "ab.*")])],
+                 [(None, [(0, "[a-z]+")]), ("0..5", [(0, ".*z")]), ("2..3", [])],
+                 [("0..6", [(0, "[a-z]+")]), (None, []), ("1..4", []), ("2|4", [(1, "ab.*")])],
+                 [("2..3", []), (None, [(0, "[a-z]+")])],
+                 [("1..4", [(1, "[a-z]+")])]]
+        for lv in fixed:
+            for s in SET_STRS:
+                L.append("typeset\t" + hexs(s) + levels_fields(lv))
+        small = [p for n in range(0, 3) for p in e_regexps(n) if not expected_dev(p) and "'" not in p]
+        for _ in range(self.n(tier, 350, 20000, scale)):
+            k = rng.random()
+            pool = SET_PATS if k < 0.4 else (SET_EASY if k < 0.75 else small)      # SET_EASY: chains that accept many strings
+            lv = r_levels(rng, pool)
+            strs = rng.sample(SET_STRS, 6) + rng.sample(all_strings(STR_ALPHA, 2), 3)
+            for s in strs:
+                L.append("typeset\t" + hexs(s) + levels_fields(lv))
+        return L
+
+    def norm(self, line, out):
+        parts = out.split(" ")
+        return parts[0] if len(set(parts)) == 1 else out
+
+    def witness(self, line, model_out, impl_out):
+        f = line.split("\t")
+        s = unhex(f[1]).decode("utf-8", "replace")
+        lv = []
+        for x in f[2:]:
+            if x == "L":
+                lv.append([])
+            elif x.startswith("G"):
+                lv[-1].append("length " + x[1:])
+            elif x in ("0", "1"):
+                inv = x
+            else:
+                lv[-1].append(("!" if inv == "1" else "") + unhex(x).decode("utf-8", "replace"))
+        parts = impl_out.split(" ")
+        names = ["conjunction of ly_pattern_match and length", "leaf", "leaf-list", "union member", "list key", "typedef", "typedef of typedef"]
+        desc = "typedef chain levels %r (! = invert-match) string %r" % (lv, s)
+        if len(set(parts)) > 1:
+            return (None, "%s: %s" % (desc, ", ".join("%s says %s" % (n, p) for n, p in zip(names, parts))))
+        if model_out != parts[0]:
+            if "X" in model_out:
+                return (None, "%s: outside the modelled XSD subset" % desc)
+            return (None, "%s: XSD reference says %s, every entry point says %s" % (desc, model_out, parts[0]))
+        return None
+
+
+YANGRE_PATS = ["a", "a ", " a", "a\\s", "\\s*", "\\s+", "[ \\t]+", ".*", "[a-z]+", "a\\s*", ".* ", " .*", "\\t", "a\\t?", "[^ ]*", ".*\\S",
+               "é ?", "\\p{IsLatin-1Supplement}\\s", "a?", "", "-a", "--", "(a| )+", "a\\r", "\\ra", ".*\\r.*", "a.b", "[^\\r]*"]
+YANGRE_STRS = ["a", "a ", " a", " a ", "a  ", "a\t", "\ta", "a \t", " ", "  ", "\t", " \t ", "", "abc", "abc ", "é", "é ", " é",
+               "a\r", "\ra", "a\rb", "\r", "-a", "--", "a b", "a ", " ", "'", "a'"]
+
+
+class YangreModes:
+    """the yangre tool gives the answer of the library in BOTH its input modes: command line (-p 'pattern' [-i] ... --
+    string) and file (-f <file>: pattern lines, a leading blank = invert-match, an empty line, the string) with LF line
+    ends, CRLF line ends and without a line end after the string; for pattern sets with invert-match and strings with
+    leading / trailing / only blanks, tabs, CR, non-ASCII characters and the empty string. Reference: the conjunction of
+    ly_pattern_match() XOR inverted over the patterns, and lyd_value_validate() on a leaf with the patterns (both in
+    impl/t_regex.c, which also runs the yangre binary of the same build)."""
+    name = "yangre-modes"
+    driver = "t_regex"
+    extra_cflags = WRAP
+    kinds = ["rel"]
+    MAX_REPORTED = 5
+
+    def __init__(self):
+        self.reported = 0
+
+    def n(self, tier, quick, thorough, scale=1.0):
+        return max(1, int((thorough if tier == "thorough" else quick) * scale))
+
+    def gen(self, rng, tier, scale=1.0):
+        L = []
+        fixed = [("a ", [(0, "a ")]), ("a ", [(0, "a")]), ("abc ", [(0, "[a-z]+")]), ("a\t", [(0, "a\\s")]), ("", [(0, "a?")]), ("", [(0, "a")]),
+                 ("\ra", [(0, "\\ra")]), ("a\r", [(0, "a\\r")]), ("b", [(1, "a")]), ("b", [(1, "a"), (0, "b")]), ("a", [(1, "a"), (0, "a|b")]),
+                 (" ", [(0, " ")]), (" ", [(1, "\\s")]), ("a  ", [(0, "a {2}")]), ("a  ", [(0, "a"), (1, "a ")]), ("\t", [(0, "\\t")]),
+                 ("", [(1, "a")]), ("", [(1, "")]), ("x", [(0, "[a")])]
+        for s, ps in fixed:
+            L.append("yangre\t" + hexs(s) + "".join("\t%d\t%s" % (i, hexs(p)) for i, p in ps))
+        small = [p for n in range(0, 3) for p in e_regexps(n) if not expected_dev(p) and "'" not in p]
+        for _ in range(self.n(tier, 280, 8000, scale)):
+            k = rng.choice([1, 1, 1, 2, 2, 3])
+            ps = [(1 if rng.random() < 0.3 else 0, rng.choice(YANGRE_PATS if rng.random() < 0.75 else small)) for _ in range(k)]
+            s = rng.choice(YANGRE_STRS) if rng.random() < 0.8 else "".join(rng.choice([" ", "\t", "a", "b", "é", "\r", "-"]) for _ in range(rng.randint(0, 4)))
+            L.append("yangre\t" + hexs(s) + "".join("\t%d\t%s" % (i, hexs(p)) for i, p in ps))
+        return L
+
+    def judge(self, line, out):
+        f = line.split("\t")
+        s = unhex(f[1]).decode("utf-8", "replace")
+        pats = [("!" if f[i] == "1" else "") + unhex(f[i + 1]).decode("utf-8", "replace") for i in range(2, len(f) - 1, 2)]
+        desc = "patterns %r (! = invert-match) string %r" % (pats, s)
+        if out.startswith("CRASH") or out.startswith("TIMEOUT"):
+            return (None, "%s: %s" % (desc, out))
+        a = out.split(" ")
+        if len(a) != 6 or "?" in a:
+            return (None, "%s: no answer (%s); is yangre built in the library build directory (ENABLE_TOOLS)?" % (desc, out))
+        e, leaf = a[0], a[1]
+        bad = []
+        if leaf != e:
+            bad.append("validator")
+        for nm, y in zip(("-p", "-f LF", "-f CRLF", "-f without final line end"), a[2:]):
+            if y != "-" and y != e and not (e == "L" and y == "E"):
+                bad.append(nm)
+        if not bad:
+            return None
+        tag = None
+        if set(bad) <= {"-f LF", "-f CRLF"}:
+            if s == "":
+                tag = "re-yangre-file-empty-line"
+            elif s.startswith("\r"):
+                tag = "re-yangre-file-cr-start"
+        if tag is None:
+            self.reported += 1
+            if self.reported > self.MAX_REPORTED:
+                return None
+        return (tag, "%s: ly_pattern_match conjunction %s, validator %s, yangre -p %s, -f LF %s, -f CRLF %s, -f no final line end %s; "
+                     "differing: %s" % (desc, e, leaf, a[2], a[3], a[4], a[5], ", ".join(bad)))
